@@ -121,4 +121,19 @@ theorem empty_signature_rejected (prot : Bytes) (un : List (Cbor × Cbor)) (pl :
 example : (decodeEnvelope [0xd2, 0x84, 0x40, 0xa0, 0x41, 0xa0, 0x41, 0x01]) =
     .ok { prot := [], payload := some [0xa0], sig := [1] } := by decide
 
+/-- **the verdict of a COSE decode does not depend on what the Evidence held before**, and neither does the state after
+    a successful one: the claims are decoded afresh from the payload, through the dispatcher (map check included), never
+    into claims the Evidence already holds -/
+theorem unmarshal_history_free (u : Bytes → Dec Bytes) (extra : List Bytes) (e e' : Ev) (bs : Bytes) :
+    (evUnmarshal u extra e bs).2 = (evUnmarshal u extra e' bs).2 ∧
+    ((evUnmarshal u extra e bs).2 = .ok () → (evUnmarshal u extra e bs).1 = (evUnmarshal u extra e' bs).1) := by
+  unfold evUnmarshal
+  cases decodeEnvelope bs with
+  | err => simp
+  | ood => simp
+  | ok m =>
+    cases hp : m.payload with
+    | none => simp
+    | some p => cases decodeClaims u extra p <;> simp
+
 end Psa.Props.C20
